@@ -527,6 +527,7 @@ def isTrajAtom : Expr → Bool
 
 /-- the assertions of `Problem.add_trajectory_constraint` (problem.py:676) -/
 def trajFormOK : Expr → Bool
+  | .leaf (.boolC _) => true      -- fix 7938d75: a stored Boolean constant (`Sometime(TRUE)` simplified) is accepted
   | .app .and args => args.all isTrajAtom
   | .quant .all _ b => isTrajAtom b
   | e => isTrajAtom e
